@@ -11,7 +11,9 @@ CHECKS = {
              "completeness under the property's guard) about a Gallina model of allocate whose arithmetic kernels "
              "(align, slices_overlap) are regenerated from the source on every run; the model is tied to the code by "
              "exact-equality correspondence on structured random problems and an independent oracle decides the "
-             "property on every implementation output.",
+             "property on every implementation output. The allocator is also reached through Machine.__setitem__ histories, "
+             "wrapper() (whose constraint assembly is modelled over constants re-extracted from wrapper.py: theorems that "
+             "the monitor core stays free and SDRAM ranges start on the wrapper's alignment) and place_and_route_wrapper().",
         ref="4 C05", technique="Coq proof (induction on the retry measure / per-chip pointer invariant) + py2v translation + vm_compute correspondence",
         note=TB),
     "C17": dict(
